@@ -1,1 +1,27 @@
-PROP = {'coq': ['theories/Properties/C01.v'], 'suites': [{'bin': 'obs-numscript', 'corpus': 'numscript'}], 'trusted': ['hand-written models Numscript/{Funding,VM,Syntax,Compiler,Run,Sem}.v of internal/machine/{funding,allotment,portion,monetary}.go, vm/{machine,run,stack}.go, script/compiler/*.go; tied on every run by correspondence: real compiler + machine vs model on generated programs x variable maps x stores (bytecode, resources, sources, needed balances, lock sets, postings, metadata, printed values, error class, panic flag), and Sem (source semantics) vs the real run end to end', 'the real ANTLR lexer/parser produces the AST the model consumes (parse-tree dump harness/nsx/ast.go is mechanical glue); machine.NewValueFromString / ParsePortionSpecific enter as harness-computed tables', 'math/big, encoding/json are exercised, not modelled; Go aliasing inside a shared *Program is covered by the run-twice oracle only'], 'assumptions': [], 'manifest': {'text': 'Coq theorem C01_floor over the source semantics Sem (transferred to the machine by compile_correct): for every script, variable values and balance table, when the run succeeds every posting from a non-world account takes at most max 0 (running balance + overdraft granted by the script), funds received earlier in the transaction counting; an insufficient source yields an error and no postings.', 'note': 'Trusted as C08.', 'technique': 'Coq proof (invariant over statements of the source semantics) + differential correspondence', 'design_ref': 'DESIGN.md 5 C01'}}
+PROP = {"ready": True, 'assumptions': [],
+ 'coq': ['theories/Properties/C01.v'],
+ 'manifest': {'design_ref': 'DESIGN.md 5 C01',
+              'note': 'Transfer from Sem to the bytecode machine is by the differential correspondence (and compile_correct, C08), not by a Coq '
+                      'theorem here. Trusted as C08.',
+              'technique': 'Coq proof (invariant over statements of the source semantics) + differential correspondence',
+              'text': 'Coq theorems over the source semantics Sem, for every script (single, ordered, capped, portioned sources and '
+                      'nested/kept/portioned destinations to any depth, save, several sends), every variable environment and every balance table '
+                      '(unbounded Z, zero/negative/huge, no well-formedness hypothesis on the table): C01_floor - when the run succeeds, replaying '
+                      "its postings in order on the machine's initial table, every posting from a non-world account takes at most max 0 (running "
+                      'balance + overdraft the script grants that (account, asset): unbounded for `allowing unbounded overdraft`, else the largest '
+                      '`overdraft up to` bound, at least 0), funds received earlier in the transaction counting; C01_sources_tracked - every '
+                      "posting's (source, asset) is a pair of the initial table; C01_resolve_balances_snapshot + C01_floor_store + "
+                      'C01_floor_pipeline - ResolveBalances yields a snapshot of the store, so the same floor holds against the store balances, end '
+                      'to end over sem_pipeline with no hypothesis left; C01_fallback_is_world_or_unbounded - the withdrawAlways operand is the '
+                      'world literal or an account with an unbounded clause; C01_reject (an error outcome has no result, by typing) and '
+                      'C01_reject_exact (a single-source send [A n] without overdraft is refused with insufficient funds iff max 0 balance < n). '
+                      'Witnesses of the two repaired defects: C01_refuted_before_fix (save [A *] on a negative balance, 0ffb9a4) and '
+                      'C01_store_floor_refuted_before_fix (save creating an entry for an unloaded asset, 2ef37df).'},
+ 'suites': [{'bin': 'obs-numscript', 'corpus': 'numscript'}],
+ 'trusted': ['hand-written models Numscript/{Funding,VM,Syntax,Compiler,Run,Sem}.v of internal/machine/{funding,allotment,portion,monetary}.go, '
+             'vm/{machine,run,stack}.go, script/compiler/*.go; tied on every run by correspondence: real compiler + machine vs model on generated '
+             'programs x variable maps x stores (bytecode, resources, sources, needed balances, lock sets, postings, metadata, printed values, error '
+             'class, panic flag), and Sem (source semantics) vs the real run end to end',
+             'the real ANTLR lexer/parser produces the AST the model consumes (parse-tree dump harness/nsx/ast.go is mechanical glue); '
+             'machine.NewValueFromString / ParsePortionSpecific enter as harness-computed tables',
+             'math/big, encoding/json are exercised, not modelled; Go aliasing inside a shared *Program is covered by the run-twice oracle only']}
